@@ -476,6 +476,32 @@ func (r *run) plan(i int, op Op) (revPlan, bool) {
 		for j := range idx {
 			idx[j] = sectors - 1 - uint64(j)
 		}
+		switch {
+		case op.Off == 1 && sectors > 0:
+			// repeated indices, all in range; with op.N above the sector count there are more indices than sectors.
+			// Whatever Validate lets through goes to the constructor with len(indices), as a host does, and the
+			// result has to be a consensus-valid revision like any other
+			n = op.N
+			if n > maxBatch {
+				n = maxBatch
+			}
+			if n < 2 {
+				n = 2
+			}
+			idx = make([]uint64, n)
+			for j := range idx {
+				idx[j] = (sectors - 1 - uint64(j)%sectors) % sectors
+			}
+			if n <= sectors {
+				idx[n-1] = idx[0]
+			}
+			p.labels = append(p.labels, "free:repeated-indices")
+		case op.Off == 2 && n > 0:
+			idx[0] = sectors // one past the end
+			p.labels = append(p.labels, "free:index-past-end")
+		case op.Off == 3 && n > 1:
+			idx[0], idx[n-1] = idx[n-1], idx[0]
+		}
 		req := rhp4.RPCFreeSectorsRequest{ContractID: id, Prices: r.hp, Indices: idx}
 		if err := req.Validate(r.hostKey(), fc); err != nil {
 			r.label("reject:" + op.Kind + ":" + rejectClass(err))
